@@ -147,6 +147,27 @@ def check_flatten_and_predicates(ctx):
             rets = [y for y in ast.walk(x) if isinstance(y, ast.Return)]
             if len(rets) == 1 and isinstance(rets[0].value, ast.Constant):
                 consts[x.name] = rets[0].value.value
+    # ... or names bound to a constant predicate defined elsewhere (`is_flatten_leaftype = _never_a_leaf`, a lambda)
+    unknown_any = []
+    for x in any_side:
+        if isinstance(x, ast.Assign) and all(isinstance(t, ast.Name) for t in x.targets):
+            v = x.value
+            val = None
+            if isinstance(v, ast.Lambda) and isinstance(v.body, ast.Constant):
+                val = v.body.value
+            elif isinstance(v, ast.Name):
+                b_ = m.resolve_name(f, v.id)
+                if b_.kind == "func":
+                    rets = [y for y in ast.walk(b_.target.node) if isinstance(y, ast.Return)]
+                    if len(rets) == 1 and isinstance(rets[0].value, ast.Constant):
+                        val = rets[0].value.value
+            for t in x.targets:
+                if val is None:
+                    unknown_any.append(t.id)
+                else:
+                    consts[t.id] = val
+    if unknown_any and not ({"is_flatten_leaftype", "is_check_leaftype"} <= set(consts)):
+        raise AnalysisError(f"C08.2: for PyTree[Any] the predicates {unknown_any} are bound to something the rule cannot evaluate")
     if consts.get("is_flatten_leaftype") is not False or consts.get("is_check_leaftype") is not True:
         ctx.bad("C08.2", f, st, f"for PyTree[Any] the flatten predicate / check predicate are {consts} (must be: never a leaf early -> False; every leaf passes -> True)",
                 construct=f"Any predicates {consts}")
